@@ -33,11 +33,11 @@ class Boom(Exception):
     """the exception raised by a generated step that ends with 'raise'"""
 
 
-class Deadlock(Exception):
+class Deadlock(BaseException):
     pass
 
 
-class ScheduleExhausted(Exception):
+class ScheduleExhausted(BaseException):
     """raised out of the event loop when an exploration prefix has been consumed (exhaustive enumeration)"""
 
     def __init__(self, n_options):
@@ -120,32 +120,47 @@ class CtlLoop(_NestBase):
 
 # ------------------------------------------------------------------------------------------------- one run of the real code
 
+def _pid_of(p):
+    return None if p is None else getattr(p, '_verif_pid', '?')
+
+
+def read_stack():
+    """`PROCESS_STACK` (the anchor state of the property) as pids, bottom first; None when the variable is not there"""
+    var = getattr(_pp, 'PROCESS_STACK', None)
+    try:
+        return [_pid_of(p) for p in var.get()]
+    except Exception:  # noqa
+        return None
+
+
 class Run:
     def __init__(self, scn, schedule, rng=None, stop_at_end=False):
         self.scn, self.schedule, self.rng, self.stop_at_end = scn, list(schedule), rng, stop_at_end
         self.pos = 0
         self.taken = []          # choices actually made (index, number of options)
-        self.chunks = []         # [op string, [obs...], ready, parked, loop_cur]
+        self.chunks = []         # one per op: dict(op, obs, ready, parked, loop_cur, loop_expected)
         self.cur_obs = []        # observations since the last decision
         self.procs = []          # generated process instances, index = pid
         self.creator = {}        # pid -> pid of the process whose code instantiated it | None
+        self.class_of = []       # pid -> class index
         self.stepper_of = {}     # pid -> tid of its stepping task
         self.resumed = set()
-        self.errors = []
+        self.nest = []           # pids of the processes whose code is inside `other.execute()`, innermost last
+        self.max_nest = 0
+        self.fatal = None
         self.classes = [make_class(self, k) for k in range(len(scn['classes']))]
         self.loop = CtlLoop(self.decide)
 
     # -- observations
-    def rec(self, proc, kind):
-        cur = plumpy.Process.current()
-        stack = getattr(_pp, 'PROCESS_STACK', None)
-        st = [getattr(p, '_verif_pid', '?') for p in stack.get()] if stack is not None else None
-        self.cur_obs.append((proc._verif_pid, kind, None if cur is None else getattr(cur, '_verif_pid', '?'), st))
+    def rec(self, proc, kind, expect=None):
+        """(owner, kind, Process.current(), PROCESS_STACK, stack expected by the restore clause | None)"""
+        self.cur_obs.append((proc._verif_pid, kind, _pid_of(plumpy.Process.current()), read_stack(), expect))
 
     def instantiate(self, k, creator, launch_from=None):
         pid = len(self.procs)
         self.procs.append(None)
         self.creator[pid] = creator
+        self.class_of.append(k)
         cls = self.classes[k]
         cls._next_pid = pid
         if launch_from is not None:
@@ -166,19 +181,30 @@ class Run:
         return sorted({t for t in (CtlLoop.tid_of(h) for h in self.loop.live_handles()) if t is not None})
 
     def close_chunk(self):
-        if self.chunks:
-            self.chunks[-1][1] = self.cur_obs
-        else:
-            self.chunks.append(['scn', self.cur_obs, None, None, None])
+        """harness code between two callbacks: attach what happened since the last decision, sample current()"""
+        if not self.chunks:
+            self.chunks.append(dict(op='scn'))
+        self.chunks[-1].update(obs=self.cur_obs, ready=self.ready_tids(), parked=self.parked(),
+                               loop_cur=_pid_of(plumpy.Process.current()),
+                               loop_expected=self.nest[-1] if self.nest else None)
         self.cur_obs = []
 
     def decide(self, loop):
-        """called by the loop whenever it is about to run a callback: choose the operation, record it"""
+        """called by the loop whenever it is about to run a callback: choose the operation, record it.
+        A harness error raised inside a nested loop would be swallowed by the task that runs that loop: keep it and
+        raise it again at every later decision until it reaches the top level."""
+        if self.fatal is not None:
+            raise self.fatal
+        try:
+            return self._decide(loop)
+        except BaseException as e:  # noqa
+            self.fatal = e
+            raise
+
+    def _decide(self, loop):
         while True:
             self.close_chunk()
-            ready, parked = self.ready_tids(), self.parked()
-            cur = plumpy.Process.current()  # harness code between two callbacks
-            self.chunks[-1][2:5] = [ready, parked, None if cur is None else getattr(cur, '_verif_pid', '?')]
+            ready, parked = self.chunks[-1]['ready'], self.chunks[-1]['parked']
             options = [('tick', t) for t in ready] + [('resume', t) for t in parked]
             if not options:
                 raise Deadlock()
@@ -193,7 +219,7 @@ class Run:
             self.pos += 1
             self.taken.append((c, len(options)))
             kind, t = options[c]
-            self.chunks.append([f'{kind} {t}', [], None, None, None])
+            self.chunks.append(dict(op=f'{kind} {t}'))
             if kind == 'resume':
                 pid = [p for p, tt in self.stepper_of.items() if tt == t][0]
                 self.resumed.add(pid)
@@ -218,11 +244,6 @@ class Run:
             finally:
                 asyncio.events._set_running_loop(None)
             self.close_chunk()
-            cur = plumpy.Process.current()
-            self.chunks[-1][2:5] = [self.ready_tids(), self.parked(), None if cur is None else getattr(cur, '_verif_pid', '?')]
-        except ScheduleExhausted as e:
-            self.exhausted_options = e.n_options
-            raise
         finally:
             self.finals = []
             for p in self.procs:
@@ -231,17 +252,17 @@ class Run:
                     continue
                 exc = None
                 if p.state == plumpy.ProcessState.EXCEPTED:
-                    exc = type(p.exception()).__name__
+                    e = p.exception()
+                    exc = type(e).__name__
                 self.finals.append((p.state.value if p.state is not None else None, exc))
             # drop everything that is still pending, then close
             for h in loop.live_handles():
                 h.cancel()
             for t in asyncio.all_tasks(loop):
                 t._log_destroy_pending = False
-                coro = t.get_coro()
                 try:
-                    coro.close()
-                except Exception:  # noqa
+                    t.get_coro().close()
+                except BaseException:  # noqa
                     pass
             loop.close()
         return self
@@ -252,7 +273,16 @@ def make_class(run, k):
 
     def hook(name):
         def f(self, *a, **kw):
-            run.rec(self, 'h.' + name)
+            if name == 'on_create':
+                self._verif_base = read_stack()   # the context the stepping task is about to inherit
+            if name == 'on_exit_waiting':
+                run.resumed.discard(self._verif_pid)   # may wait (and be resumed) again
+            expect = None
+            if name in OUTPUT_HOOKS:
+                expect = self._verif_scope
+            elif getattr(self, '_verif_constructed', False):
+                expect = self._verif_base         # lifecycle hook in the stepping task: what it was before any scope
+            run.rec(self, 'h.' + name, expect)
             return getattr(plumpy.Process, name)(self, *a, **kw)
         f.__name__ = name
         return f
@@ -267,6 +297,15 @@ def make_class(run, k):
             self._verif_pid = type(self)._next_pid
             run.procs[self._verif_pid] = self
             super().__init__(*a, **kw)
+
+        def init(self):
+            super().init()
+            self._verif_constructed = True
+
+        @property
+        def _verif_scope(self):
+            b = getattr(self, '_verif_base', None)
+            return None if b is None else b + [self._verif_pid]
 
     Gen.__name__ = Gen.__qualname__ = f'Gen{k}'
     for h in LIFECYCLE_HOOKS + OUTPUT_HOOKS:
@@ -287,11 +326,11 @@ def make_class(run, k):
 
         if 'a' in code:
             async def step(self):
-                await interp_async(run, self, code, 'seg', 'aw')
+                await interp_async(run, self, code, 'seg', 'aw', self._verif_scope)
                 return ending(self)
         else:
             def step(self):
-                interp_sync(run, self, code, 'seg')
+                interp_sync(run, self, code, 'seg', self._verif_scope)
                 return ending(self)
         step.__name__ = 'run' if i == 0 else f'step{i}'
         return step
@@ -304,59 +343,66 @@ def make_class(run, k):
 
 def make_cb(run, proc, j):
     code = run.scn['cbs'][j]
+    base = read_stack()   # the context the callback's task inherits
+    expect = None if base is None else base + [proc._verif_pid]
     if 'a' in code:
         async def cb():
-            await interp_async(run, proc, code, 'cbseg', 'cbaw')
+            await interp_async(run, proc, code, 'cbseg', 'cbaw', expect)
     else:
         def cb():
-            interp_sync(run, proc, code, 'cbseg')
+            interp_sync(run, proc, code, 'cbseg', expect)
     return cb
 
 
-def do_act(run, proc, act):
+def do_act(run, proc, act, expect):
     if act == 'o':
-        run.rec(proc, 'o')
+        run.rec(proc, 'o', expect)
     elif act == 'u':
         proc._n_out = getattr(proc, '_n_out', 0) + 1
         proc.out(f'o{proc._n_out}', proc._n_out)
-        run.rec(proc, 'uret')
+        run.rec(proc, 'uret', expect)
     elif act[0] == 'c':
         proc.call_soon(make_cb(run, proc, int(act[1:])))
-        run.rec(proc, 'csret')
+        run.rec(proc, 'csret', expect)
     elif act[0] == 'l':
         child = run.instantiate(int(act[1:]), proc._verif_pid, launch_from=proc)
         run.stepper_of[child._verif_pid] = run.loop._n_tasks - 1
-        run.rec(proc, 'lret')
+        run.rec(proc, 'lret', expect)
     elif act[0] == 'x':
         other = run.instantiate(int(act[1:]), proc._verif_pid)
         run.stepper_of[other._verif_pid] = run.loop._n_tasks  # the task execute() is about to create
+        run.nest.append(proc._verif_pid)
+        run.max_nest = max(run.max_nest, len(run.nest))
         try:
             other.execute()
         except Boom:
             pass
-        run.rec(proc, 'xret')
+        finally:
+            run.nest.pop()
+        run.rec(proc, 'xret', expect)
     else:
         raise ValueError(act)
 
 
-def interp_sync(run, proc, code, k0):
-    run.rec(proc, k0)
+def interp_sync(run, proc, code, k0, expect):
+    run.rec(proc, k0, expect)
     for act in code:
-        do_act(run, proc, act)
+        do_act(run, proc, act, expect)
 
 
-async def interp_async(run, proc, code, k0, k1):
-    run.rec(proc, k0)
+async def interp_async(run, proc, code, k0, k1, expect):
+    run.rec(proc, k0, expect)
     for act in code:
         if act == 'a':
             await asyncio.sleep(0)
-            run.rec(proc, k1)
+            run.rec(proc, k1, expect)
         else:
-            do_act(run, proc, act)
+            do_act(run, proc, act, expect)
 
 
 def run_impl(scn, schedule, seed=None, stop_at_end=False):
-    """-> dict(ops=[...], obs=[[...]...], ready=[...], parked=[...], loop_cur=[...], finals=[...], taken=[...], error=...)"""
+    """Run the real code on (scenario, schedule); choices beyond the schedule are random (seed) or 0.
+    -> dict(chunks=[{op, obs, ready, parked, loop_cur, loop_expected}], finals, taken, creator, error, max_nest)"""
     import random
     logging.disable(logging.CRITICAL)
     install_policy()
@@ -369,54 +415,6 @@ def run_impl(scn, schedule, seed=None, stop_at_end=False):
     except Deadlock:
         err = 'deadlock'
     except BaseException as e:  # noqa
-        err = f'harness:{type(e).__name__}:{e}'
-    return dict(ops=[c[0] for c in r.chunks], obs=[c[1] for c in r.chunks], ready=[c[2] for c in r.chunks],
-                parked=[c[3] for c in r.chunks], loop_cur=[c[4] for c in r.chunks], finals=r.finals, taken=r.taken,
-                creator=r.creator, stepper_of=r.stepper_of, error=err, options_at_end=getattr(r, 'exhausted_options', None))
-
-
-# ------------------------------------------------------------------------------------------------- line protocol
-
-END_TOK = {'next': 'N', 'wait': 'W', 'finish': 'F', 'raise': 'R'}
-
-
-def code_toks(code):
-    return [str(len(code))] + list(code)
-
-
-def scn_line(scn):
-    t = ['scn', str(len(scn['top']))] + [str(k) for k in scn['top']] + [str(len(scn['classes']))]
-    for steps in scn['classes']:
-        t.append(str(len(steps)))
-        for st in steps:
-            t.append(END_TOK[st['end']])
-            t += code_toks(st['code'])
-    t.append(str(len(scn['cbs'])))
-    for c in scn['cbs']:
-        t += code_toks(c)
-    return ' '.join(t)
-
-
-def show_cur(c):
-    return '-' if c is None else str(c)
-
-
-def show_obs(o):
-    owner, kind, cur, stack = o
-    return f"{owner}:{kind}:{show_cur(cur)}:{'.'.join(str(x) for x in (stack or []))}"
-
-
-def impl_lines(r):
-    """canonical observation lines of a run, one per op (same format as `pmodel procstack`)"""
-    out = []
-    for obs, ready, parked, lc in zip(r['obs'], r['ready'], r['parked'], r['loop_cur']):
-        if ready is None:
-            out.append('incomplete')
-            continue
-        out.append(f"obs={','.join(show_obs(o) for o in obs)} ready={','.join(map(str, ready))} "
-                   f"parked={','.join(map(str, parked))} loop={show_cur(lc)}")
-    return out
-
-
-def op_lines(scn, r):
-    return [scn_line(scn)] + r['ops'][1:]
+        err = f'{type(e).__name__}:{e}'[:200]
+    return dict(chunks=r.chunks, finals=r.finals, taken=r.taken, creator=r.creator, error=err, max_nest=r.max_nest,
+                n_procs=len(r.procs), n_tasks=r.loop._n_tasks, class_of=r.class_of)
